@@ -250,4 +250,66 @@ theorem ift_spec [Inhabited K] (A : Arith K K) {d r : Data K K} {dim : String} (
           unfold Data.mapAlong; simp [hdm]
         exact (mapAlong_spec h n none hd hm).2.2 ℓ hℓ hℓd
 
+/-! ### the axis pair: the inverse transform rebuilds the time axis from the frequency axis the forward transform built -/
+section axes
+variable {F : Type} [Field F]
+
+/-- forward axis point k of an n-point transform with dwell time dt, shifted by `off` bins, optionally divided by the
+    ppm factor q (the formulas of `fourierTransform`) -/
+def fwdAxis (n : ℕ) (dt : F) (off : ℕ) (q : F) (k : ℕ) : F := ((k : F) / ((n : F) * dt) - (off : F) / ((n : F) * dt)) / q
+
+/-- inverse axis point k rebuilt from the spacing df of a frequency axis that was divided by q (the formulas of
+    `inverseFourierTransform`: df·q is the spacing in Hz) -/
+def invAxis (n : ℕ) (df q : F) (k : ℕ) : F := (k : F) / ((n : F) * (df * q))
+
+/-- the spacing of the forward axis is 1/(n·dt)/q — for ANY non-zero dwell time, positive or NEGATIVE (a descending
+    axis), shifted or not -/
+theorem fwdAxis_spacing (n : ℕ) (dt : F) (off : ℕ) (q : F) (hn : (n : F) ≠ 0) (hdt : dt ≠ 0) (hq : q ≠ 0) (k : ℕ) :
+    fwdAxis n dt off q (k + 1) - fwdAxis n dt off q k = 1 / ((n : F) * dt) / q := by
+  unfold fwdAxis
+  field_simp
+  push_cast
+  ring
+
+/-- **the time axis comes back with its sign**: rebuilt from the spacing of the forward axis, point k is k·dt — for any
+    non-zero dt (descending time axes included), any shift, with or without the ppm conversion -/
+theorem axis_roundtrip (n : ℕ) (dt : F) (off : ℕ) (q : F) (hn : (n : F) ≠ 0) (hdt : dt ≠ 0) (hq : q ≠ 0) (k : ℕ) :
+    invAxis n (fwdAxis n dt off q 1 - fwdAxis n dt off q 0) q k = (k : F) * dt := by
+  have h := fwdAxis_spacing n dt off q hn hdt hq 0
+  simp only [zero_add] at h
+  rw [h]
+  unfold invAxis
+  field_simp
+
+/-- the model's `fourierTransform` puts exactly `fwdAxis` on the transformed dimension (arithmetic of a field) -/
+theorem ft_axis [Inhabited F] {d r : Data F F} {dim : String} (zff : Nat) (shift : Bool) (fr : Option F) (tw : Nat → F)
+    (hr : d.fourierTransform (Dnp.C12.fieldArith F) dim zff shift fr tw = .ok r) :
+    let n := (if zff = 0 then 1 else zff) * (d.coord dim).length
+    let dt := (d.coord dim).getD 1 default - (d.coord dim).getD 0 default
+    r.coords = setAt d.coords (d.index dim)
+      ((List.range n).map (fwdAxis n dt (if shift then n / 2 else 0) (match fr with | some f => f / ((1000000 : ℕ) : F) | none => 1))) := by
+  intro n dt
+  unfold Data.fourierTransform at hr
+  split at hr
+  · cases hr
+  · simp only at hr
+    split at hr
+    · cases hr
+    · split at hr
+      · cases hr
+      · simp only [Except.ok.injEq] at hr
+        subst hr
+        cases fr with
+        | none =>
+          simp only [Data.addHist, Dnp.C12.fieldArith]
+          congr 1
+          apply List.map_congr_left
+          intro k _
+          simp only [fwdAxis, div_one, n, dt]
+        | some f =>
+          simp only [Data.addHist, Dnp.C12.fieldArith, List.map_map]
+          congr 1
+
+end axes
+
 end Dnp.C09
